@@ -1,7 +1,7 @@
 /-
 C35 — soundness of the may-analysis: a post-fixpoint `S` of the facts-free analysis bounds the
 exception classes that can leave any function, for every assignment of facts and every call depth.
-Independent of the generated table.
+Independent of the generated table.  Also: the two facts about serial accept loops behind `C35_partial`.
 -/
 import EphVerif.Model.Escape
 
@@ -56,5 +56,49 @@ theorem outcome_survives (table : List (List Step)) (S : List (List Exc)) (hS : 
       rw [List.isEmpty_iff.1 hr] at this
       cases this
   simp [outcome, hnil]
+
+/-! ### serial accept loops -/
+
+theorem pickedUpAt_no_silent (cs : List Conn) (h : ∀ c ∈ cs, c ≠ .silent) (T : Option Nat) :
+    ∀ k, (pickedUpAt T cs k).isSome = true := by
+  induction cs with
+  | nil => intro k; cases k <;> rfl
+  | cons c rest ih =>
+    intro k
+    cases k with
+    | zero => rfl
+    | succ k =>
+      have hc : c ≠ .silent := h c List.mem_cons_self
+      have hr := ih (fun x hx => h x (List.mem_cons_of_mem _ hx)) k
+      cases c with
+      | silent => exact absurd rfl hc
+      | completes w =>
+        simp only [pickedUpAt, holdTime]
+        cases hp : pickedUpAt T rest k with
+        | none => rw [hp] at hr; cases hr
+        | some t => rfl
+
+/-- with a read timeout `T` every client is reached, after at most `k · max T B` when every
+    well-behaved request costs at most `B` -/
+theorem pickedUpAt_bounded (T B : Nat) (cs : List Conn) (hB : ∀ w, Conn.completes w ∈ cs → w ≤ B) :
+    ∀ k, ∃ t, pickedUpAt (some T) cs k = some t ∧ t ≤ k * max T B := by
+  induction cs with
+  | nil => intro k; cases k <;> exact ⟨0, rfl, Nat.zero_le _⟩
+  | cons c rest ih =>
+    intro k
+    cases k with
+    | zero => exact ⟨0, rfl, Nat.zero_le _⟩
+    | succ k =>
+      obtain ⟨t, ht, hle⟩ := ih (fun w hw => hB w (List.mem_cons_of_mem _ hw)) k
+      cases c with
+      | silent =>
+        refine ⟨T + t, by simp [pickedUpAt, holdTime, ht], ?_⟩
+        have : T ≤ max T B := Nat.le_max_left _ _
+        rw [Nat.succ_mul]; omega
+      | completes w =>
+        refine ⟨w + t, by simp [pickedUpAt, holdTime, ht], ?_⟩
+        have h1 : w ≤ B := hB w List.mem_cons_self
+        have : B ≤ max T B := Nat.le_max_right _ _
+        rw [Nat.succ_mul]; omega
 
 end EphVerif.Escape
